@@ -7,6 +7,7 @@ package reader
 
 import (
 	"fmt"
+	"github.com/protobom/protobom/pkg/verifhook"
 	"io"
 	"os"
 	"sync"
@@ -53,6 +54,7 @@ func UnregisterUnserializer(format formats.Format) {
 
 func GetFormatUnserializer(format formats.Format) (native.Unserializer, error) {
 	if _, ok := unserializers[format]; ok {
+		verifhook.Point("reader.GetFormatUnserializer:between-check-and-fetch")
 		return unserializers[format], nil
 	}
 	return nil, fmt.Errorf("no serializer registered for %s", format)
@@ -90,6 +92,7 @@ func New(opts ...ReaderOption) *Reader {
 		Storage: storage.NewFileSystem(),
 		Options: newDefaultOptions(),
 	}
+	verifhook.Point("reader.New:before-options")
 
 	for _, opt := range opts {
 		opt(r)
